@@ -103,7 +103,8 @@ def generate(rnd, tier, index=0):
         n0, m0 = rnd.randint(2, 4), rnd.randint(1, 3)
         how = "reuse:" + rnd.choice(["ndarray", "ndarray_F", "list", "series_frame"])
         for op in ops:
-            if op["op"] in ("fit", "partial_fit") and cfg["np"] is None:
+            if op["op"] in ("fit", "partial_fit") and (cfg["np"] is None or how == "reuse:list"):
+                # (a list is converted into a new array by every call, so list re-use is sound under every policy)
                 if len(op["rows"]) >= n0:
                     op["rows"] = op["rows"][:n0]
                 op["container"] = how
